@@ -276,6 +276,19 @@ def run(ctx, rep):
     else:
         T = Terms(cv)
         sws = enum_switches(cv, "convert::Hide")
+        env = None
+        if not sws:
+            # the decision may be a method of Hide (or another helper) that convert hands the verdict and the two children to:
+            # its operands are then read through that call's arguments
+            import expr
+            for cs_ in cv.calls():
+                g_ = F.fns.get(cs_.callee)
+                if g_ is not None and g_.path.startswith("simplicity::node::") and enum_switches(g_, "convert::Hide"):
+                    env = {i_ + 1: T.operand(a_) for i_, a_ in enumerate(cs_.args)}
+                    cv = g_
+                    T = Terms(cv)
+                    sws = enum_switches(cv, "convert::Hide")
+                    break
         if not sws:
             rep.anchor("C08.decision", "switch on Hide in Node::convert")
         else:
@@ -296,6 +309,8 @@ def run(ctx, rep):
                     rep.violation("C08.decision", "hide:" + hv, "Hide::%s builds %s, expected Inner::%s" % (hv, [x[2]["variant"] for x in built], wv), cv.where())
                     continue
                 ops = [T.operand(o) for o in built[0][2]["ops"]]
+                if env is not None:
+                    ops = [expr.subst(o, env) for o in ops]
                 okk = True
                 for k, o in enumerate(ops):
                     side = "Case.%d" % k
